@@ -120,7 +120,12 @@ func (h *clientConnectionHandler) onConnectionAccepted(connection *CqlServerConn
 			h.connections[clientAddr] = holder
 		}
 		holder.ch <- connection
-		h.anyConnChan <- connection
+		select {
+		case h.anyConnChan <- connection:
+		default:
+			// nobody is draining the queue with AcceptAny: do not block the accept loop (with connectionsLock held)
+			log.Trace().Msgf("%v: any-connection queue is full, not announcing: %v", h, connection.conn.RemoteAddr())
+		}
 		return nil
 	}
 }
